@@ -59,6 +59,21 @@ pub fn dump(seed: u64, thorough: bool) {
                                 println!("FAIL C19: {}({}) = {:?} but {}({}) = {:?}", f, v, s, delegate, v, n);
                             }
                         }
+                        None if *f == "p_flags_to_string" => {
+                            // PF_X = 1, PF_W = 2, PF_R = 4: a value made of these bits only is rendered as the
+                            // three permission letters; anything else falls back to text containing the number
+                            if v & !7 == 0 {
+                                let want = format!("{}{}{}", if v & 4 != 0 { "R" } else { " " }, if v & 2 != 0 { "W" } else { " " }, if v & 1 != 0 { "E" } else { " " });
+                                if s != want {
+                                    println!("FAIL C19: p_flags_to_string({}) = {:?}, expected {:?}", v, s, want);
+                                }
+                            } else {
+                                let hex = format!("{:x}", v);
+                                if !(s.contains(&hex) || s.contains(&v.to_string())) {
+                                    println!("FAIL C19: p_flags_to_string({}) = {:?} does not contain the number", v, s);
+                                }
+                            }
+                        }
                         None => {
                             let hex = format!("{:x}", v);
                             if !(s.contains(&hex) || s.contains(&v.to_string())) && *f != "p_flags_to_string" {
